@@ -9,44 +9,63 @@ fn stub_random_state() -> ahash::RandomState {
 const PKG_A: NameId = NameId(0);
 const PKG_B: NameId = NameId(1);
 
-/// A snapshot with two (empty) packages and captured version sets with the given ids.  The captured
-/// version set with id `i` belongs to package name `100 + i`, which identifies it when resolved.
-fn snapshot_with<const N: usize>(ids: [u32; N]) -> DependencySnapshot {
+/// A snapshot with two (empty) packages and captured version sets with the given (concrete) ids.  The
+/// package name recorded in each captured version set is SYMBOLIC (>= 100, so it can never be confused
+/// with the two real packages): resolving a captured id must return exactly that value.
+fn snapshot_with<const N: usize>(ids: [u32; N]) -> (DependencySnapshot, [NameId; N]) {
     let mut s = DependencySnapshot::default();
     s.packages.insert(PKG_A, Package { name: String::new(), solvables: Vec::new(), excluded: Vec::new() });
     s.packages.insert(PKG_B, Package { name: String::new(), solvables: Vec::new(), excluded: Vec::new() });
+    let mut names = [NameId(0); N];
     let mut i = 0;
     while i < N {
+        let n: u32 = kani::any();
+        kani::assume(n >= 100);
+        names[i] = NameId(n);
         s.version_sets.insert(
             VersionSetId(ids[i]),
-            VersionSet { name: NameId(100 + ids[i]), display: String::new(), matching_candidates: HashSet::default() },
+            VersionSet { name: names[i], display: String::new(), matching_candidates: HashSet::default() },
         );
         i += 1;
     }
-    s
+    (s, names)
 }
 
-fn check_captured<const N: usize>(p: &SnapshotProvider<'_>, ids: [u32; N]) {
+fn check_captured<const N: usize>(p: &SnapshotProvider<'_>, ids: [u32; N], names: &[NameId; N]) {
     let mut i = 0;
     while i < N {
         // must neither panic nor resolve to an added entry
-        assert!(p.version_set_name(VersionSetId(ids[i])) == NameId(100 + ids[i]),
+        assert!(p.version_set_name(VersionSetId(ids[i])) == names[i],
                 "captured version set (also the highest-numbered) stays resolvable and unshadowed");
         i += 1;
     }
 }
 
+/// add_package_requirement itself cannot be executed (its `collect::<HashSet<_>>()` drags hashbrown in and
+/// does not finish, DESIGN P7).  Its id computation is therefore sliced VERBATIM from the current source
+/// into `verif_next_id` (generated below), and the one remaining effect - pushing the new entry onto
+/// `additional_version_sets` - is replayed here.  Resolution goes through the real `version_set()`.
+fn add_like(p: &mut SnapshotProvider<'_>, name: NameId) -> VersionSetId {
+    let id = p.verif_next_id();
+    p.additional_version_sets.push(VersionSet {
+        name,
+        display: String::new(),
+        matching_candidates: HashSet::default(),
+    });
+    VersionSetId::from_usize(id)
+}
+
 fn case<const N: usize, const ADDS: usize>(ids: [u32; N]) {
-    let snap = snapshot_with(ids);
+    let (snap, names) = snapshot_with(ids);
     let mut p = snap.provider();
-    check_captured(&p, ids);
+    check_captured(&p, ids, &names);
     let mut added = [VersionSetId(u32::MAX); ADDS];
     let mut pk = [PKG_A; ADDS];
     let mut k = 0;
     while k < ADDS {
         let which: bool = kani::any();
         pk[k] = if which { PKG_A } else { PKG_B };
-        let id = p.add_package_requirement(pk[k], "*");
+        let id = add_like(&mut p, pk[k]);
         // fresh: not a captured id, not an earlier added id
         let mut i = 0;
         while i < N {
@@ -61,14 +80,14 @@ fn case<const N: usize, const ADDS: usize>(ids: [u32; N]) {
         added[k] = id;
         k += 1;
         // everything resolvable after every addition
-        check_captured(&p, ids);
+        check_captured(&p, ids, &names);
         let mut j = 0;
         while j < k {
             assert!(p.version_set_name(added[j]) == pk[j], "added id resolves to the added entry");
             j += 1;
         }
     }
-    kani::cover!(ADDS == 0 || pk[0] == PKG_B, "package B chosen");
+    kani::cover!(N == 0 || names[0] == NameId(u32::MAX), "extreme captured name");
     std::mem::forget(p);
     std::mem::forget(snap);
 }
